@@ -43,6 +43,22 @@ def build(profile="debug", hooked=False):
     """cargo build of the harness against /repo's current working tree; returns the binary."""
     ensure_work()
     tdir = "target-hooked" if hooked else "target"
+    hdir = HARNESS
+    repo = os.environ.get("VERIF_REPO", "/repo")
+    if repo != "/repo":
+        # background runs against a snapshot of the repository (vp run --with-repo): same harness
+        # sources, path dependency redirected; MANIFEST commands never set VERIF_REPO
+        hdir = os.path.join(WORK, "harness_alt")
+        os.makedirs(hdir, exist_ok=True)
+        for name in ("src", ".cargo"):
+            dst = os.path.join(hdir, name)
+            if not os.path.islink(dst):
+                os.symlink(os.path.join(HARNESS, name), dst)
+        shutil.copy(os.path.join(HARNESS, "Cargo.lock"), os.path.join(hdir, "Cargo.lock"))
+        with open(os.path.join(HARNESS, "Cargo.toml")) as f:
+            toml = f.read().replace('path = "/repo"', 'path = "%s"' % repo)
+        with open(os.path.join(hdir, "Cargo.toml"), "w") as f:
+            f.write(toml)
     cmd = ["cargo", "build", "--offline", "--target-dir", tdir]
     if profile == "release":
         cmd.append("--release")
@@ -54,12 +70,14 @@ def build(profile="debug", hooked=False):
     flags += " -Awarnings"
     env["RUSTFLAGS"] = flags.strip()
     t0 = time.time()
-    r = subprocess.run(cmd, cwd=HARNESS, env=env, capture_output=True, text=True)
+    r = subprocess.run(cmd, cwd=hdir, env=env, capture_output=True, text=True)
     if r.returncode != 0:
         sys.stderr.write(r.stderr[-6000:])
         raise ToolError("harness build failed (profile %s, hooked %s)" % (profile, hooked))
     log("[build] %s%s %.1fs" % (profile, " hooked" if hooked else "", time.time() - t0))
-    return os.path.join(HARNESS, tdir, profile, "jbkdrive")
+    binary = os.path.join(hdir, tdir, profile, "jbkdrive")
+    os.environ["VERIF_CODEC"] = binary      # the independent decoder's codec helper (third-party crates only)
+    return binary
 
 
 def parse_trace(path):
